@@ -1059,8 +1059,22 @@ func disambiguate(name string, collides func(string) bool) string {
 func accessibleFrom(info *types.Info, node ast.Node, dst *types.Package) error {
 	wantPkg := dst.Path()
 	var unexportError error
-	ast.Inspect(node, func(node ast.Node) bool {
+	var inspect func(node ast.Node) bool
+	inspect = func(node ast.Node) bool {
 		if unexportError != nil {
+			return false
+		}
+		if ft, ok := node.(*ast.FuncType); ok {
+			// The names of parameters and results are declared by the
+			// function type itself; only their types refer to anything.
+			for _, fl := range []*ast.FieldList{ft.TypeParams, ft.Params, ft.Results} {
+				if fl == nil {
+					continue
+				}
+				for _, field := range fl.List {
+					ast.Inspect(field.Type, inspect)
+				}
+			}
 			return false
 		}
 		if lit, ok := node.(*ast.CompositeLit); ok {
@@ -1108,7 +1122,8 @@ func accessibleFrom(info *types.Info, node ast.Node, dst *types.Package) error {
 			}
 		}
 		return true
-	})
+	}
+	ast.Inspect(node, inspect)
 	return unexportError
 }
 
